@@ -1,4 +1,5 @@
 //@inject src/vdaf/prio3.rs
+//@tolerate __rust_dealloc
 //@harness p3_shard_seeds_2_nojr | bounded(2 aggregators, no joint randomness, empty measurement vector) | shard_with_random on the real generic code: every helper share is Helper{seed[, blind]} copied VERBATIM from the sharding randomness in consumption order (a function of `random` only, for every measurement); leader blind verbatim; public share has one part per aggregator iff joint randomness
 //@harness p3_shard_seeds_3_nojr | bounded(3 aggregators, no joint randomness, empty measurement vector) | same contract (the "third helper")
 //@harness p3_shard_seeds_2_jr | bounded(2 aggregators, joint randomness, empty measurement vector) | same contract, blinds interleaved with seeds
@@ -30,7 +31,7 @@ mod verif_c17_prio3 {
                 let na: u8 = $na;
                 let il: usize = $il;
                 let mut vdaf = sym_prio3(na, 1, kani::any(), jr);
-                vdaf.typ.input_len = il; vdaf.typ.proof_len = il; vdaf.typ.prove_rand_len = 0; vdaf.typ.output_len = il;
+                vdaf.typ.input_len = il; vdaf.typ.proof_len = il; vdaf.typ.prove_rand_len = 1; vdaf.typ.output_len = il;
                 let m = any64();
                 unsafe { ENC_MEAS = raw64(m); STREAM_BYTE0 = 1; }      // every expanded element is the field element 1
                 let random: [u8; 96] = kani::any();
